@@ -540,6 +540,84 @@ func randAddrIn(r *rand.Rand, pfx netip.Prefix) netip.Addr {
 	return netip.AddrFrom16(a)
 }
 
+// saturationRun fills one routing prefix exactly to and beyond its bounds: more new destinations than the prefix
+// may hold are offered one by one, then every destination that got in is filled to three routes, then the table
+// is cleaned. All always-clauses are checked after every operation.
+func saturationRun(res *core.Result, r *rand.Rand, limit int) {
+	cfg := smallConfig(limit)
+	c := &checker{res: res, tbl: m.NewRoutingTable(cfg), cfg: cfg, desc: fmt.Sprintf("saturation/limit=%d", limit), limit: func(netip.Prefix) int { return limit }}
+	pfx := netip.MustParsePrefix("fd31:7700::/16")
+	relays := []netip.Addr{netip.MustParseAddr("fd51::1"), netip.MustParseAddr("fd52::2"), netip.MustParseAddr("fd53::3")}
+	n := 2*limit + 4
+	dests := make([]netip.Addr, n)
+	for i := range dests {
+		dests[i] = randAddrIn(r, pfx)
+	}
+	for round := 0; round < 3 && !c.fail; round++ {
+		for i, d := range dests {
+			c.apply(gossip(fmt.Sprintf("sat(d%d via relay%d)", i, round), d, []uint16{5, uint16(10 + round), 7}, relays[round]), true)
+			if c.fail {
+				return
+			}
+		}
+	}
+	c.apply(op{kind: opClean, name: "clean"}, true)
+	if !c.fail {
+		res.Count("saturation_runs", 1)
+		res.Case(fmt.Sprintf("saturation|%d|%x", limit, r.Uint64()), true)
+	}
+}
+
+// nestedCleanRun uses the real prefix configuration of a router address (a small own prefix nested inside its
+// region prefix), offers far more gossip destinations than the limits in the region on both sides of the own
+// prefix and inside it, and cleans.
+func nestedCleanRun(res *core.Result, r *rand.Rand, kind int) {
+	cfg, routerIP, desc := realConfig(r, kind)
+	limitOf := func(pfx netip.Prefix) int {
+		for _, rp := range cfg.RoutablePrefixes {
+			if rp.BasePrefix.Contains(pfx.Addr()) {
+				return rp.EntriesPerPrefix
+			}
+		}
+		return 0
+	}
+	c := &checker{res: res, tbl: m.NewRoutingTable(cfg), cfg: cfg, desc: "nested/" + desc, limit: limitOf}
+	region, _ := routerIP.Prefix(16)
+	relays := []netip.Addr{randAddrIn(r, m.RoutingAddressPrefix), randAddrIn(r, m.RoutingAddressPrefix)}
+	var dests []netip.Addr
+	for _, rp := range cfg.RoutablePrefixes {
+		// destinations inside every configured base prefix that lies in the router's /16, and in the /16 itself
+		if region.Contains(rp.BasePrefix.Addr()) {
+			for i := 0; i < 40; i++ {
+				dests = append(dests, randAddrIn(r, rp.BasePrefix))
+			}
+		}
+	}
+	for i := 0; i < 400; i++ {
+		dests = append(dests, randAddrIn(r, region))
+	}
+	r.Shuffle(len(dests), func(i, j int) { dests[i], dests[j] = dests[j], dests[i] })
+	for i, d := range dests {
+		o := gossip(fmt.Sprintf("nested(d%d)", i), d, []uint16{5, 9, 7}, relays[i%2])
+		o.entry.Path.Hops[0].Router = routerIP
+		c.apply(o, i%50 == 0)
+		if c.fail {
+			return
+		}
+		if i%150 == 149 {
+			c.apply(op{kind: opClean, name: "clean"}, true)
+			if c.fail {
+				return
+			}
+		}
+	}
+	c.apply(op{kind: opClean, name: "clean"}, true)
+	if !c.fail {
+		res.Count("nested_clean_runs", 1)
+		res.Case(fmt.Sprintf("nested-clean|%d|%x", kind, r.Uint64()), true)
+	}
+}
+
 func largeRun(res *core.Result, r *rand.Rand, kind int, nops int) {
 	cfg, routerIP, desc := realConfig(r, kind)
 	limitOf := func(pfx netip.Prefix) int {
@@ -852,6 +930,13 @@ func run(c *core.Ctx) {
 		}
 	})
 	res.Sample(map[string]any{"config": "real GetRoutablePrefixesFor(geo-marked|roaming|organization router)", "destinations": 1000, "peers": 12, "relays": 30})
+	parallel(W, func(w int) {
+		r := core.RNG(fmt.Sprintf("c11/sat/%d", w))
+		for i := w; i < c.Q(32, 400); i += W {
+			saturationRun(res, r, 1+i%6)
+			nestedCleanRun(res, r, i%3)
+		}
+	})
 
 	nConc := c.Q(150, 2000)
 	parallel(4, func(w int) {
